@@ -857,6 +857,9 @@ def snapshot(d):
 
 
 # ====================================================================================== oracle
+MODEL_CACHE = {}
+
+
 def reference_run(env, wdir, scn, i, cache):
     """the same command, alone, fault-free, with no simulator: what success looks like"""
     inv = scn["invocations"][i]
@@ -880,6 +883,117 @@ def reference_run(env, wdir, scn, i, cache):
            "stdout": open(os.path.join(wdir, "ref.stdout"), errors="replace").read() if inv["stdout"] == "file" else None}
     cache[key] = ref
     return ref
+
+
+# ---- independent content model (stub tools): what each requested output must contain, derived from single-unit
+# reference compilations and from a re-implementation of what the stub assembler / linker write. The lone-run
+# comparison above cannot see a driver that is *consistently* wrong (outputs swapped, objects linked in another order).
+def fnv_stub(datas):
+    h = 0xcbf29ce484222325
+    n_as = 0
+    chunks = 0
+    for d in datas:
+        for b in d:
+            h = ((h ^ b) * 0x100000001b3) & 0xFFFFFFFFFFFFFFFF
+        n_as += len(d)
+        chunks += (len(d) + 4095) // 4096
+    return h, n_as, chunks
+
+
+def stub_as_output(asm):
+    h, n, _ = fnv_stub([asm])
+    out = "OBJ %d %016x\n" % (n, h)
+    for i in range(40):
+        out += "pad %d....................................................................\n" % i
+    return out.encode()
+
+
+def stub_ld_output(objs):
+    h, _, chunks = fnv_stub(objs)
+    return ("EXE %d %016x\n" % (chunks, h)).encode()
+
+
+def compile_flags(argv):
+    """the options that can influence what cc1 emits (everything but mode, -o, dependency options and inputs)"""
+    out = []
+    i = 0
+    while i < len(argv):
+        a = argv[i]
+        if a in ("-o", "-MF", "-MT", "-MQ"):
+            i += 2
+            continue
+        if a in ("-D", "-U", "-I", "-idirafter", "-include", "-x"):
+            out += [a, argv[i + 1]]
+            i += 2
+            continue
+        if a in ("-L", "-Xlinker"):
+            i += 2
+            continue
+        if a.startswith("-") and not a.startswith(("-o", "-l", "-Wl,", "-L")) and a not in ("-E", "-S", "-c", "-M", "-MD", "-MP", "-MMD", "-s", "-static", "-shared"):
+            out.append(a)
+        i += 1
+    return out
+
+
+def reference_asm(env, wdir, scn, inp, flags, cache):
+    key = json.dumps(["asm", inp, scn["files"].get(inp), flags, sorted(scn["files"].items())])
+    if key in cache:
+        return cache[key]
+    mach = Machine(env, wdir, {"files": scn["files"], "pre": {}, "tools": "stub", "invocations": []}, [], {"kind": "serial"})
+    mach.setup_fs()
+    e = {"PATH": env["tools"]["stub"] + ":/usr/bin:/bin", "HOME": "/nonexistent", "LANG": "C", "LD_PRELOAD": env["libvsim"]}
+    try:
+        p = subprocess.run([env["cc"]] + flags + ["-S", inp, "-o", "ref.model.s"], cwd=mach.cwd, env=e, stdin=subprocess.DEVNULL, stdout=subprocess.PIPE, stderr=subprocess.PIPE, timeout=60)
+    except subprocess.TimeoutExpired:
+        raise Inconclusive("reference compilation timed out")
+    asm = None
+    if p.returncode == 0:
+        try:
+            asm = open(os.path.join(mach.cwd, "ref.model.s"), "rb").read()
+        except OSError:
+            asm = None
+    cache[key] = asm
+    return asm
+
+
+def expected_contents(env, wdir, scn, inv, m, cache):
+    """{requested output: sha1 prefix of the bytes it must hold} for a successful stub-tool command, or None if unknown"""
+    if scn["tools"] != "stub" or m["mode"] not in ("S", "c", "link") or m["refused"]:
+        return None
+    flags = compile_flags(inv["argv"])
+    objs = []
+    exp = {}
+    for tu in m["tus"]:
+        p = tu["input"]
+        kind = scn["files"].get(p)
+        if tu["ext"] == ".c":
+            asm = reference_asm(env, wdir, scn, p, flags, cache)
+            if asm is None:
+                return None
+            if m["mode"] == "S":
+                exp[tu["output"]] = asm
+                continue
+            obj = stub_as_output(asm)
+        elif tu["ext"] == ".s":
+            if m["mode"] == "S":
+                continue
+            if kind is None or kind == "dir":
+                return None
+            obj = stub_as_output(file_content(kind, "".join(c for c in p if c.isalnum())).encode())
+        elif tu["ext"] == ".o":
+            if kind is None:
+                return None
+            obj = file_content(kind, "".join(c for c in p if c.isalnum())).encode()
+        else:
+            return None
+        if m["mode"] == "c":
+            if tu["output"]:
+                exp[tu["output"]] = obj
+        else:
+            objs.append(obj)
+    if m["mode"] == "link" and m["inputs"]:
+        exp[m["out"] or "a.out"] = stub_ld_output(objs)
+    return dict((k, hashlib.sha1(v).hexdigest()[:16]) for k, v in exp.items())
 
 
 def failed_steps(scn, i, st, m):
@@ -994,6 +1108,11 @@ def check(env, wdir, scn, res, solo, refs, which):
                     v.append(("O4-output-differs-from-lone-run", i, "exit 0 but %s differs from what the same command produces alone" % o))
             if ref and ref["status"] == 0 and ref["stdout"] is not None and res["stdout"][i] is not None and ref["stdout"] != res["stdout"][i]:
                 v.append(("O4-output-differs-from-lone-run", i, "standard output differs from the lone run"))
+            exp = expected_contents(env, wdir, scn, inv, m, MODEL_CACHE)
+            if exp:
+                for o, h in sorted(exp.items()):
+                    if not o.startswith("/") and res["after"].get(o) is not None and res["after"].get(o) != h:
+                        v.append(("O4-output-has-wrong-content", i, "exit 0 but %s does not hold what compiling its own input (and assembling / linking in command-line order) produces" % o))
         # O5 non-interference: the same invocation alone, under the same faults
         s = solo.get(i)
         if s is not None and not s["verdict"]:
